@@ -21,3 +21,89 @@ Proof. exact default_values. Qed.
 
 Print Assumptions C02_get_value_constant.
 Print Assumptions C02_complete_defaults.
+
+(* ====================================================================================================
+   Semantic clause, by composition (proofs/EagerModelSem_proofs.v):
+     get_value = complete ; MGSubstituter.substitute ; simplify ; "is it a constant?"
+     C05 substitution lemma (for a model) + C01 simplify_sound / fold_complete + coincidence.
+   FULL statement aimed at: for every formula f without quantifiers / uninterpreted functions,
+   every assignment m of constants to symbols and every well-formed interpretation I that agrees
+   with m and gives the other free symbols of f their documented defaults, under which no Int/Real
+   division by zero is evaluated:  get_value m f returns the constant denoting eval I f.
+   PROVED for the common fragment [gfrag]: operators And Or Not Implies Iff Ite Equals Plus Times
+   Minus LE LT Div, the five kinds of constants and symbols of any inhabited first-order sort
+   (= cfrag of C01 + symbols, minus ToReal and Pow, which are outside the fragment of the C05
+   substitution lemma), with the node conditions of both ingredients (arities as the constructors
+   guarantee, canonical Real constants, BV constants in range, no negation directly under a
+   negation or as a divisor).  Outside: bit-vector / string / array operators, ToReal, Pow,
+   quantifiers, function applications.
+   Vocabulary: model_ok m = every entry is (symbol, constant of the symbol's sort, as the manager
+   builds it); agrees I m = I gives every assigned symbol the value of its constant; defaults_on
+   I m f = I gives every unassigned free symbol of f the value of default_value of its sort;
+   covered m f = every free symbol of f is assigned; nodiv0 I f = no divisor in f evaluates to 0
+   under I (stated on f itself; it is transferred to the substituted term inside the proof). *)
+From PySMT.core Require Import Sem.
+From PySMT.models Require Import TypeChecker.
+From PySMT.proofs Require Import SimplifierSem_proofs SimplifierFoldComplete_proofs EagerModelSem_proofs.
+
+Theorem C02_get_value_exact_partial : forall ora m f ty I c,
+  model_ok m -> gfrag f = true -> tc f = Some ty ->
+  wf_interp I -> agrees I m -> defaults_on I m f -> nodiv0 I f ->
+  get_value ora m f true = Some c ->
+  is_const c = true /\ tc c = Some ty /\ okt c = true /\ eval I c = eval I f.
+Proof. exact get_value_exact_partial. Qed.
+
+(* with completion, or with an assignment that covers the formula, a value IS returned *)
+Theorem C02_get_value_total_partial : forall ora m f ty I (completion : bool),
+  model_ok m -> gfrag f = true -> tc f = Some ty ->
+  wf_interp I -> agrees I m -> defaults_on I m f -> nodiv0 I f ->
+  (if completion
+   then forall n t, In (n, t) (fv f) -> lookup m (TSym n t) = None -> default_value t <> None
+   else covered m f) ->
+  exists c, get_value ora m f completion = Some c.
+Proof. exact get_value_total_partial. Qed.
+
+(* without completion: a returned constant is the value under EVERY well-formed extension of m
+   (division-safe for f in the sense of Sem.div_safe: only the branches taken count) *)
+Theorem C02_get_value_partial_sound_partial : forall ora m f ty c,
+  model_ok m -> gfrag f = true -> tc f = Some ty ->
+  get_value ora m f false = Some c ->
+  is_constant c = true /\
+  forall I, wf_interp I -> agrees I m -> div_safe I f -> eval I c = eval I f.
+Proof. exact get_value_partial_sound_partial. Qed.
+
+Theorem C02_satisfies_iff_partial : forall ora m f I b,
+  model_ok m -> gfrag f = true -> tc f = Some TBool ->
+  wf_interp I -> agrees I m -> defaults_on I m f -> nodiv0 I f ->
+  satisfies ora m f = Some b -> (b = true <-> eval I f = VBool true).
+Proof. exact satisfies_iff_partial. Qed.
+
+(* the hypotheses on the interpretation are satisfiable for EVERY model: the completed model itself *)
+Theorem C02_model_interp_ok : forall m f, model_ok m ->
+  wf_interp (model_interp m) /\ agrees (model_interp m) m /\ defaults_on (model_interp m) m f.
+Proof.
+  intros m f H. exact (conj (model_interp_wf m H) (conj (model_interp_agrees m H) (model_interp_defaults m f))).
+Qed.
+Theorem C02_get_value_exact_model_partial : forall ora m f ty c,
+  model_ok m -> gfrag f = true -> tc f = Some ty -> nodiv0 (model_interp m) f ->
+  get_value ora m f true = Some c ->
+  is_const c = true /\ tc c = Some ty /\ eval (model_interp m) c = eval (model_interp m) f.
+Proof. exact get_value_exact_model_partial. Qed.
+
+(* a non-trivial instance: f = (x + z + 2 <= y) & !b & (r / q = 3/2), m = {x:=3, y:=7, r:=3.0, q:=2.0} *)
+Theorem C02_get_value_example :
+  model_ok exm_m /\ gfrag exm_f = true /\ tc exm_f = Some TBool /\
+  wf_interp (model_interp exm_m) /\ agrees (model_interp exm_m) exm_m /\
+  defaults_on (model_interp exm_m) exm_m exm_f /\ nodiv0 (model_interp exm_m) exm_f /\
+  get_value no_oracle exm_m exm_f true = Some TTrue /\
+  get_value no_oracle exm_m exm_f false = None /\
+  satisfies no_oracle exm_m exm_f = Some true.
+Proof. exact get_value_example. Qed.
+
+Print Assumptions C02_get_value_exact_partial.
+Print Assumptions C02_get_value_total_partial.
+Print Assumptions C02_get_value_partial_sound_partial.
+Print Assumptions C02_satisfies_iff_partial.
+Print Assumptions C02_model_interp_ok.
+Print Assumptions C02_get_value_exact_model_partial.
+Print Assumptions C02_get_value_example.
